@@ -209,7 +209,11 @@ def _make_data_fillna_scalar(self, value):
 @requires_closed_match
 def _fillna_with_stairs(self, value):
     # value is Stairs
-    return self.fillna(0) + value * self.isna()
+    isna = self.isna()
+    # fill with a defined stand-in first so that undefined regions of `value` cannot
+    # leak into points where self is defined, then undefine where both are undefined
+    result = self.fillna(0) + value.fillna(0) * isna
+    return result.mask(isna & value.isna())
 
 
 # TODO: test
